@@ -74,6 +74,32 @@ def run(rng, tier, model_ok):
                 seq += [o, ("num", str(rng.choice([1, 2, 3, 2, 3, 5])))]
             for t in bracketings(seq):
                 trees.append(t)
+    # every operator sequence of length four (and five in the thorough tier, a sample of them in the quick one) without parentheses:
+    # where the precedence stack is deepest
+    def flat(ops):
+        seq = [("num", str(rng.choice([2, 3, 5, 7])))]
+        for o in ops:
+            seq += [o, ("num", str(rng.choice([1, 2, 3, 2])))]
+        # the tree the documented grammar assigns to the flat text: left-associative precedence climbing over the levels
+        out, stack = [seq[0]], []
+        for i in range(1, len(seq), 2):
+            o = seq[i]
+            while stack and gens.PRIO[stack[-1]] >= gens.PRIO[o]:
+                r = out.pop()
+                l = out.pop()
+                out.append(("bin", stack.pop(), l, r))
+            stack.append(o)
+            out.append(seq[i + 1])
+        while stack:
+            r = out.pop()
+            l = out.pop()
+            out.append(("bin", stack.pop(), l, r))
+        return out[0]
+    for ops in itertools.product(OPS, repeat=4):
+        trees.append(flat(ops))
+    five = list(itertools.product(OPS, repeat=5))
+    for ops in (five if tier == "thorough" else rng.sample(five, 500)):
+        trees.append(flat(ops))
     exhaustive = len(trees)
     k = 700 if tier == "quick" else 8000
     for _ in range(k):
@@ -140,6 +166,29 @@ def run(rng, tier, model_ok):
             v = pipeline.single_value(reply)
             if v is None or Fraction(v[0], v[1]) != w or v[2] != [["Meter", 1, -2]]:
                 return {"why": "`to` binds loosest: expected %s cm" % w, "expected": str(w)}
+            return None
+        items.append((q, oracle))
+    # several `to` at one level group left to right: the last one names the unit of the answer
+    metric = [("km", 3), ("m", 0), ("cm", -2), ("mm", -3), ("dm", -1), ("nm", -9)]
+    for _ in range(60 if tier == "quick" else 600):
+        chain = [rng.choice(metric) for _ in range(rng.randint(2, 4))]
+        a, b = rng.randint(1, 9), rng.randint(1, 9)
+        (u0, e0), (ul, el) = chain[0], chain[-1]
+        op = rng.choice(["", "+", "*"])
+        if op == "+":
+            q, w = "%d %s + %d %s" % (a, u0, b, u0), Fraction(a + b)
+        elif op == "*":
+            q, w = "%d %s * %d" % (a, u0, b), Fraction(a * b)
+        else:
+            q, w = "%d %s" % (a, u0), Fraction(a)
+        q += "".join("%sto %s" % (rng.choice([" ", "  "]), u) for u, _ in chain[1:])
+        w = w * Fraction(10) ** (e0 - el)
+        shapes["cast"] += 1
+
+        def oracle(reply, w=w, el=el, ul=ul):
+            v = pipeline.single_value(reply)
+            if v is None or Fraction(v[0], v[1]) != w or v[2] != [["Meter", 1, el]]:
+                return {"why": "casts group left to right: expected %s %s" % (w, ul), "expected": str(w)}
             return None
         items.append((q, oracle))
     corpus = vlib.load_corpus("C06")
